@@ -27,6 +27,7 @@ func propC14(c *Ctx) {
 	c.ruleC14NameIsPath()
 	c.ruleC14RecursionOnlyForCycles()
 	c.ruleWriteLengthCheck("C14-WRITE-LENGTH-CHECK")
+	c.ruleCycleBeforeScan("C14-CYCLE-BEFORE-SCAN")
 	if m := c.E1Base(); m != nil {
 		c.ruleQuotedEscapes(m, "C14-QUOTED-ESCAPES")
 	}
@@ -1030,5 +1031,69 @@ func (c *Ctx) ruleWriteLengthCheck(rule string) {
 	}
 	if n == 0 {
 		r.Ok(rule, "library", "no write count is compared with a length", "")
+	}
+}
+
+// ---------- a cycle is seen before the file is scanned again ----------
+
+// ruleCycleBeforeScan: the recursion test of the include stack asks whether the INCLUDING file is already open, at the
+// moment it is pushed. A file that includes itself is therefore scanned a second time, from its first byte, before the
+// cycle is seen at its own INCLUDE line - and whatever the second scan meets first is reported instead (a root file
+// that includes itself: "the directive JSIGHT is not allowed in included files"). The property asks for a recursion
+// error. The test has to be made on the file that is about to be scanned, before its scanner is created.
+func (c *Ctx) ruleCycleBeforeScan(rule string) {
+	r := c.R
+	r.Rule(rule, "in the INCLUDE handler the scanner of the included file (scanner.NewJApiScanner(<file read>)) is created only after a test, keyed by the name of THAT file, that it is not being scanned already: otherwise a cyclic file is scanned once more before the cycle is seen, and the first fault the second scan meets is reported instead of the recursion", 1)
+	h := c.fn("core", "JApiCore.processInclude")
+	mk := c.P.LookupFunc("scanner", "NewJApiScanner")
+	if h == nil || mk == nil {
+		r.Undecided(rule, "anchor", "processInclude / scanner.NewJApiScanner not found", "")
+		return
+	}
+	calls := callsIn(h.Pkg, h.Decl.Body, mk)
+	if len(calls) == 0 {
+		r.Undecided(rule, "sites", "processInclude creates no scanner", c.pos(h.Decl.Pos()))
+		return
+	}
+	fc := c.cfgOf(h)
+	for _, mkc := range calls {
+		if len(mkc.Args) != 1 {
+			continue
+		}
+		fileExpr := c.stableExpr(h, mkc.Args[0], nil)
+		// a call on the stack field whose argument is <file>.Name(), in a condition whose hit returns an error,
+		// dominating the creation
+		guarded := false
+		ast.Inspect(h.Decl.Body, func(n ast.Node) bool {
+			ifs, ok := n.(*ast.IfStmt)
+			if !ok || !returnsNonNilError(h.Pkg, ifs.Body.List) {
+				return true
+			}
+			ast.Inspect(ifs.Cond, func(m ast.Node) bool {
+				call, ok := m.(*ast.CallExpr)
+				if !ok || len(call.Args) != 1 {
+					return true
+				}
+				nameCall, ok := ast.Unparen(call.Args[0]).(*ast.CallExpr)
+				if !ok {
+					return true
+				}
+				nsel, ok := ast.Unparen(nameCall.Fun).(*ast.SelectorExpr)
+				if !ok || nsel.Sel.Name != "Name" || c.stableExpr(h, nsel.X, nil) != fileExpr {
+					return true
+				}
+				if fc.dominatedBy(mkc, ifs.Cond) && ifs.End() <= mkc.Pos() {
+					guarded = true
+				}
+				return true
+			})
+			return true
+		})
+		key := h.Name() + " | " + exprString(mkc.Fun)
+		if guarded {
+			r.Ok(rule, key, "the file is tested against the open files before its scanner is created", c.pos(mkc.Pos()))
+		} else {
+			r.Bad(rule, key, "the scanner of the included file is created without asking whether that file is already being scanned (the stack only tests the including file when it is pushed): a file that includes itself is scanned a second time, and the first fault met there - for a root file, its JSIGHT directive - is reported instead of the recursion", c.pos(mkc.Pos()))
+		}
 	}
 }
